@@ -2307,7 +2307,9 @@ func (k *Kernel) loadInitialVotingView(ctx context.Context, s *kState) error {
 		vs = k.initialValSet
 	} else {
 		// During initialization, we have set the committing block on the kState value.
-		vs = s.CommittingHeader.ValidatorSet
+		// The voting height is one past the committing height,
+		// so its validators are the committing header's next validator set.
+		vs = s.CommittingHeader.NextValidatorSet
 	}
 
 	if len(vs.Validators) == 0 {
